@@ -26,7 +26,9 @@
 #include "esx.h"
 #include "galloc.h"
 #include <aws/common/hash_table.h>
-#include <aws/common/private/hash_table_impl.h>
+#ifndef NO_WHITEBOX
+#    include <aws/common/private/hash_table_impl.h>
+#endif
 
 /* ------------------------------------------------------------------ universe ------------------------ */
 #define NOBJ 8  /* k0 k1 k2 k3 k4 k0' k1' NULL */
@@ -258,6 +260,7 @@ static bool m_enabled(int op) {
 }
 
 /* ------------------------------------------------------------------ whole-state oracle ---------------- */
+#ifndef NO_WHITEBOX
 struct snap {
     bool valid;
     size_t size;
@@ -298,6 +301,44 @@ static const char *dump_table(int t) {
     snprintf(b + o, sizeof(b) - o, " ]");
     return b;
 }
+#else
+/* fallback build (-DNO_WHITEBOX, chosen by the driver when hash_table_impl.h no longer has the shape the white-box part
+ * expects): the table is observed through its public iterator only - slot positions become positions in iteration order,
+ * the structural clauses and the slot-level vacuity counters are not available, the run is reported as degraded */
+struct snap {
+    bool valid;
+    size_t size;
+    int obj[MAXSLOTS], val[MAXSLOTS];
+};
+static void take_snap(struct snap *sn, int t) {
+    sn->valid = false;
+    if (!R[t].valid || !T[t].p_impl) return;
+    sn->size = 0;
+    for (struct aws_hash_iter it = aws_hash_iter_begin(&T[t]); !aws_hash_iter_done(&it) && sn->size < MAXSLOTS; aws_hash_iter_next(&it)) {
+        sn->obj[sn->size] = obj_of(it.element.key);
+        sn->val[sn->size] = val_of(it.element.value);
+        sn->size++;
+    }
+    sn->valid = true;
+}
+static int snap_slot_of(const struct snap *sn, int id) {
+    for (size_t i = 0; i < sn->size; ++i)
+        if (sn->obj[i] >= 0 && ID(sn->obj[i]) == id) return (int)i;
+    return -1;
+}
+static const char *dump_table(int t) {
+    static char b[1200];
+    size_t o = 0;
+    if (!T[t].p_impl) return "(no table)";
+    struct snap sn;
+    take_snap(&sn, t);
+    o += (size_t)snprintf(b + o, sizeof(b) - o, "count=%zu iteration order [", aws_hash_table_get_entry_count(&T[t]));
+    for (size_t i = 0; i < sn.size && i < 16 && o + 60 < sizeof(b); ++i)
+        o += (size_t)snprintf(b + o, sizeof(b) - o, " %s=%s", sn.obj[i] < 0 ? "??" : OBJN[sn.obj[i]], sn.val[i] < 0 ? "??" : VALN[sn.val[i]]);
+    snprintf(b + o, sizeof(b) - o, " ]");
+    return b;
+}
+#endif
 static const char *dump_ref(int t) {
     static char b[300];
     size_t o = 0;
@@ -313,6 +354,7 @@ static void check_table(int t, const char *after) {
         ESX_CHECK(T[t].p_impl == NULL, "cleaned-up-state", "after %s: table %s should be in the cleaned-up state but p_impl is not NULL", after, tn);
         return;
     }
+#ifndef NO_WHITEBOX
     struct hash_table_state *st = T[t].p_impl;
     ESX_CHECK(st != NULL, "lost-table", "after %s: table %s has no state", after, tn);
     if (esx_failed) return;
@@ -351,6 +393,31 @@ static void check_table(int t, const char *after) {
     if (esx_failed) return;
     ESX_CHECK(st->entry_count == occ, "inv-entry-count", "after %s: entry_count %zu but %zu occupied slots; %s", after, st->entry_count, occ, dump_table(t));
     ESX_CHECK(occ == (size_t)n, "contents-count", "after %s: %zu occupied slots, reference holds %d (%s); %s", after, occ, n, dump_ref(t), dump_table(t));
+#else
+    ESX_CHECK(T[t].p_impl != NULL, "lost-table", "after %s: table %s has no state", after, tn);
+    if (esx_failed) return;
+    const struct reftab *r = &R[t];
+    int n = rcount(r);
+    {
+        struct snap sn;
+        take_snap(&sn, t);
+        bool seen[NID] = {false};
+        for (size_t i = 0; i < sn.size && !esx_failed; ++i) {
+            int ob = sn.obj[i], v = sn.val[i];
+            ESX_CHECK(ob >= 0 && v >= 0, "contents", "after %s: entry %zu holds a key/value pointer nobody stored; %s", after, i, dump_table(t));
+            if (esx_failed) return;
+            int id = ID(ob);
+            ESX_CHECK(r->e[id].present, "contents", "after %s: the table holds %s which the reference map does not contain (reference:%s); %s", after, OBJN[ob], dump_ref(t), dump_table(t));
+            ESX_CHECK(!seen[id], "duplicate-key", "after %s: key %s is stored twice; %s", after, OBJN[ob], dump_table(t));
+            if (esx_failed) return;
+            seen[id] = true;
+            ESX_CHECK(r->e[id].obj == ob, "contents-key-object", "after %s: the table stores key object %s, reference says %s", after, OBJN[ob], OBJN[r->e[id].obj]);
+            ESX_CHECK(r->e[id].val == v, "contents-value", "after %s: %s maps to %s, reference says %s; %s", after, OBJN[ob], VALN[v], VALN[r->e[id].val], dump_table(t));
+        }
+        if (esx_failed) return;
+        ESX_CHECK(sn.size == (size_t)n, "contents-count", "after %s: iteration presents %zu entries, reference holds %d (%s); %s", after, sn.size, n, dump_ref(t), dump_table(t));
+    }
+#endif
     /* --- public API --- */
     size_t cnt = aws_hash_table_get_entry_count(&T[t]);
     ESX_CHECK(cnt == (size_t)n, "count", "after %s: get_entry_count %zu, reference %d", after, cnt, n);
@@ -383,6 +450,7 @@ static void check_dtors(const char *after) {
 }
 
 /* vacuity evidence: what did this removal / insertion do to the slot array */
+#ifndef NO_WHITEBOX
 static void classify_change(const struct snap *before, int t, bool insert, int id) {
     struct snap after;
     take_snap(&after, t);
@@ -419,6 +487,11 @@ static void classify_change(const struct snap *before, int t, bool insert, int i
         if (wrapped) V_COUNT("wraparound_shift_deletes", 1);
     }
 }
+#else
+static void classify_change(const struct snap *before, int t, bool insert, int id) {
+    (void)before, (void)t, (void)insert, (void)id; /* slot-level vacuity counters need the private layout */
+}
+#endif
 
 /* ------------------------------------------------------------------ iteration ------------------------ */
 struct itctx {
@@ -477,6 +550,7 @@ static void do_iter(int mask, bool destroy, const char *what) {
                 V_COUNT("iter_deletes", 1);
                 if (it.limit != limit0) V_COUNT("iter_limit_adjusts", 1);
                 if (slot0 == 0) V_COUNT("iter_deletes_in_slot0", 1);
+#ifndef NO_WHITEBOX
                 if (before.valid) {
                     /* the backward shift of this deletion crossed the end of the slot array */
                     size_t last = before.size - 1;
@@ -485,6 +559,7 @@ static void do_iter(int mask, bool destroy, const char *what) {
                         if (!before.s[j].hash_code || (before.s[j].hash_code & last) == j) chain_to_end = false;
                     if (chain_to_end && before.s[0].hash_code && (before.s[0].hash_code & last) != 0) V_COUNT("iter_deletes_wraparound", 1);
                 }
+#endif
                 classify_change(&before, 0, false, id);
                 check_dtors(what);          /* destructor calls so far */
                 if (!esx_failed) check_all(what); /* the table is a consistent map in the middle of the iteration too */
@@ -738,6 +813,7 @@ static size_t m_canon(uint8_t *b, size_t cap) {
     for (int t = 0; t < (g.pair ? 2 : 1); ++t) {
         b[o++] = (uint8_t)R[t].valid;
         if (!R[t].valid) continue;
+#ifndef NO_WHITEBOX
         struct hash_table_state *st = T[t].p_impl;
         b[o++] = (uint8_t)R[t].hash;
         b[o++] = (uint8_t)R[t].dtor;
@@ -753,6 +829,19 @@ static size_t m_canon(uint8_t *b, size_t cap) {
             memcpy(b + o, &e->hash_code, 8);
             o += 8;
         }
+#else
+        b[o++] = (uint8_t)R[t].hash;
+        b[o++] = (uint8_t)R[t].dtor;
+        {
+            struct snap sn;
+            take_snap(&sn, t);
+            b[o++] = (uint8_t)sn.size;
+            for (size_t i = 0; i < sn.size; ++i) {
+                b[o++] = (uint8_t)sn.obj[i];
+                b[o++] = (uint8_t)sn.val[i];
+            }
+        }
+#endif
     }
     return o;
 }
